@@ -39,13 +39,19 @@
 (*    request's metadata; existing account = existing values overridden by *)
 (*    the request's metadata only (defaults are never re-applied)          *)
 (*                                                                         *)
-(* Named deviations of the code from the property statement ("audit mode   *)
-(* accepts them"), each request having then TWO outcomes in this module,   *)
-(* the literal one (dev = "none") and the one the code was read to give:   *)
+(* Named deviations from the property statement ("audit mode accepts       *)
+(* them") that the code exhibited when this module was written (repaired   *)
+(* in /repo by b6f2f6a and 054dd07).  They stay in the model as a SECOND,  *)
+(* never-followed outcome of the request (dev = "D1"/"D2", the literal     *)
+(* outcome has dev = "none"), so that a regression is reported under its   *)
+(* own signature instead of as an anonymous mismatch:                      *)
 (*   D1  audit mode rejects a write naming a version that does not exist   *)
 (*       (schema_not_found)                                                *)
 (*   D2  audit mode rejects a plain-postings transaction naming a version  *)
 (*       whose schema defines templates (the lookup of template "" fails)  *)
+(* Ids: a strict-mode rejection happens after the transaction was executed *)
+(* and burns a transaction id; gaps are allowed (property C16), so ids are *)
+(* not part of the state; the harness checks they are distinct.            *)
 (***************************************************************************)
 EXTENDS Chart
 
@@ -171,10 +177,10 @@ StepRec(r, o) == [req |-> r, dev |-> o.dev,
 Do(r, o) == /\ st' = o.st
             /\ hist' = Append(hist, StepRec(r, o))
 
-\* Behaviours are only continued along the outcomes the implementation is known to follow (Follow =
-\* the deviations it exhibits, calibrated by a probe before the run); the other outcome of a
-\* two-outcome request is still generated, as the last step of a behaviour, so that a change of the
-\* implementation is noticed.
+\* Behaviours are only continued along the outcomes in Follow (the cfgs use Follow = {}: the literal
+\* outcomes, the only ones the property allows); the deviation outcome of a two-outcome request is
+\* still generated, as the LAST step of a behaviour, so that an implementation producing it is
+\* reported under the deviation's signature.  (Follow = {"D1","D2"} explores the as-read code.)
 \* (written with IF, not \/: inside an action TLC would explore both disjuncts and duplicate successors)
 OnPath(s) == IF s.alt.dev = "same" THEN TRUE
              ELSE LET d == IF s.dev # "none" THEN s.dev ELSE s.alt.dev
